@@ -134,6 +134,10 @@ fn words(min: usize, max: usize) -> impl Strategy<Value = Vec<Inl>> {
     vec(word(), min..=max)
 }
 
+fn code_span_text_plain() -> impl Strategy<Value = String> {
+    "[a-z]{1,6}"
+}
+
 fn code_span_text() -> impl Strategy<Value = String> {
     // no backticks; no leading/trailing space; may contain markdown punctuation (literal inside code)
     prop_oneof![
@@ -220,7 +224,11 @@ fn inline_atom(cfg: &DocCfg) -> BoxedStrategy<Inl> {
         opts.push((2, (words(1, 3), any::<bool>()).prop_map(|(w, u)| Inl::Strong(w, u)).boxed()));
     }
     if cfg.on("code_span") {
-        opts.push((2, code_span_text().prop_map(Inl::Code).boxed()));
+        if cfg.on("code_span_punct") {
+            opts.push((2, code_span_text().prop_map(Inl::Code).boxed()));
+        } else {
+            opts.push((2, code_span_text_plain().prop_map(Inl::Code).boxed()));
+        }
     }
     if cfg.on("link") {
         let mut icfg = cfg.clone();
@@ -539,7 +547,15 @@ pub fn doc(cfg: &DocCfg) -> BoxedStrategy<Doc> {
     let title_p = cfg.title_p;
     let start_no = cfg.number_from;
     let title: BoxedStrategy<Option<Blk>> = if title_p > 0.0 {
-        proptest::option::weighted(title_p, inlines(cfg, false, 3).prop_map(|inl| Blk::Head { level: 1, setext: false, closing: 0, inl })).boxed()
+        let mut tcfg = cfg.clone();
+        if !cfg.on("link_in_title") {
+            tcfg.features.off.insert("link".into());
+        }
+        // the title becomes link text in other notes, written without escaping (KF-ESCAPE)
+        if !cfg.on("title_code_punct") {
+            tcfg.features.off.insert("code_span_punct".into());
+        }
+        proptest::option::weighted(title_p, inlines(&tcfg, false, 3).prop_map(|inl| Blk::Head { level: 1, setext: false, closing: 0, inl })).boxed()
     } else {
         Just(None).boxed()
     };
